@@ -122,10 +122,75 @@ pub fn panic_message(e: Box<dyn std::any::Any + Send>) -> String {
     }
 }
 
+thread_local! {
+    /// When set, every close of this thread goes through the user-written strategy [slot_reuse].
+    pub static USER_STRATEGY: std::cell::Cell<bool> = std::cell::Cell::new(false);
+}
+
+/// Runs `f` with every close going through the user-written strategy [slot_reuse].
+pub fn with_user_strategy<R>(f: impl FnOnce() -> R) -> R {
+    struct Reset;
+    impl Drop for Reset {
+        fn drop(&mut self) {
+            USER_STRATEGY.with(|u| u.set(false));
+        }
+    }
+    let _reset = Reset;
+    USER_STRATEGY.with(|u| u.set(true));
+    f()
+}
+
+/// A variant-closing strategy as a user of the library may write one (trait `RecordVariantBuilder`):
+/// an added datum takes the place of the first removed datum, in the order the removals were
+/// requested, that has its size and a suitably aligned offset; the others are appended. The list
+/// stays in address order. Its result depends on the order of `data_to_add` and `data_to_remove`.
+pub fn slot_reuse(
+    mut data: Vec<truc::record::definition::DatumId>,
+    data_to_add: Vec<truc::record::definition::DatumId>,
+    data_to_remove: Vec<truc::record::definition::DatumId>,
+    defs: &mut truc::record::definition::DatumDefinitionCollection<truc::record::definition::NativeDatumDetails>,
+) -> Vec<truc::record::definition::DatumId> {
+    use truc::record::definition::{builder::native::variant::NativeDataUpdater, NativeDatumDetails};
+    let mut free: Vec<truc::record::definition::DatumId> = data_to_remove.clone();
+    let mut appended = vec![];
+    for add in data_to_add {
+        let (size, align) = {
+            let d = defs.get(add).expect("datum to add").details();
+            (d.size(), d.type_align())
+        };
+        let slot = free.iter().position(|r| {
+            let d = defs.get(*r).expect("datum to remove").details();
+            size > 0 && d.size() == size && d.offset() % align == 0
+        });
+        match slot {
+            Some(k) => {
+                let r = free.remove(k);
+                let offset = defs.get(r).expect("datum to remove").details().offset();
+                let new = {
+                    let d = defs.get(add).expect("datum to add").details();
+                    NativeDatumDetails::new(offset, d.type_info().clone(), d.allow_uninit())
+                };
+                *defs.get_mut(add).expect("datum to add").details_mut() = new;
+                let pos = data.iter().position(|d| *d == r).expect("removed datum is in the variant");
+                data[pos] = add;
+            }
+            None => appended.push(add),
+        }
+    }
+    data.remove_data(free.iter().cloned());
+    for add in appended {
+        data.push_datum(defs, add);
+    }
+    data
+}
+
 pub fn close_with<R: truc::record::type_resolver::TypeResolver>(
     b: &mut NativeRecordDefinitionBuilder<R>,
     strat: Strat,
 ) -> RecordVariantId {
+    if USER_STRATEGY.with(|u| u.get()) {
+        return b.close_record_variant_with(slot_reuse);
+    }
     match strat {
         Strat::Simple => b.close_record_variant_with(variant::simple),
         Strat::Basic => b.close_record_variant_with(variant::basic),
@@ -389,7 +454,7 @@ pub fn strat_strategy() -> impl Strategy<Value = Strat> {
 /// (size, align): power-of-two alignment 1..16, size a multiple of the alignment (what Rust
 /// types look like), zero included.
 pub fn shape_strategy() -> impl Strategy<Value = (usize, usize)> {
-    (prop_oneof![24 => 0usize..5, 2 => 5usize..8, 1 => 8usize..13], prop_oneof![
+    let regular = (prop_oneof![24 => 0usize..5, 2 => 5usize..8, 1 => 8usize..13], prop_oneof![
         30 => 0usize..=6,
         5 => 7usize..=12,
         3 => 13usize..=40,
@@ -399,7 +464,16 @@ pub fn shape_strategy() -> impl Strategy<Value = (usize, usize)> {
         .prop_map(|(a, k)| {
             let align = 1usize << a;
             (k * align, align)
-        })
+        });
+    // One shape in ten has a size that is not a multiple of its alignment: no Rust type is like
+    // that, but the builder accepts any (size, alignment) given by override or by a type table.
+    (regular, 0u8..10, any::<u16>()).prop_map(|((size, align), odd, r)| {
+        if odd == 0 && align >= 2 {
+            (size.saturating_sub(align) + 1 + pick(r, align - 1), align)
+        } else {
+            (size, align)
+        }
+    })
 }
 
 pub fn req_strategy(strats: BoxedStrategy<Strat>) -> impl Strategy<Value = Req> {
